@@ -635,6 +635,35 @@ class Fn:
                         out.append((b, arms, sw[2], s))
         return out
 
+    def variant_edge(self, sw, variant):
+        """For a discriminant switch tuple from discr_switches, the block that is entered exactly
+        when the value is `variant`; sees through `matches!` (arm sets a bool that is then
+        switched on). Returns (true_block, false_blocks)."""
+        b, arms, other, st = sw
+        if variant not in arms:
+            return None
+        t = arms[variant]
+        others = [x for v, x in arms.items() if v != variant]
+        if not self.is_unreachable_block(other):
+            others.append(other)
+        # matches!: t: `_b = const true; goto J`, others: `_b = const false; goto J`, J: switch _b
+        ss = self.stmts(t)
+        if len(ss) == 1 and ss[0].rv_kind() == "use" and Operand(ss[0].rv[1]).const is not None and Operand(ss[0].rv[1]).val == 1 \
+                and self.term(t)[0] == "goto":
+            bl = ss[0].place.local
+            j = self.term(t)[1]
+            # walk gotos
+            hops = 0
+            while self.term(j)[0] == "goto" and hops < 4 and not self.stmts(j):
+                j = self.term(j)[1]
+                hops += 1
+            sw2 = self.switch_on(j)
+            if sw2 and sw2[0].place is not None and sw2[0].place.local == bl:
+                tt = sw2[2] if 0 in sw2[1] else sw2[1].get(1)
+                ff = sw2[1].get(0, sw2[2])
+                return tt, [ff]
+        return t, others
+
     def dominated_region(self, bb):
         return {b for b in self.reachable(bb) if self.dominates(bb, b)}
 
@@ -735,6 +764,8 @@ CORE_VARIANTS = {
     "ops::ControlFlow": {0: "Continue", 1: "Break"},
     "ops::control_flow::ControlFlow": {0: "Continue", 1: "Break"},
     "cmp::Ordering": {-1: "Less", 0: "Equal", 1: "Greater", 255: "Less"},
+    "collections::btree::map::entry::Entry": {0: "Vacant", 1: "Occupied"},
+    "borrow::Cow": {0: "Borrowed", 1: "Owned"},
 }
 
 
